@@ -337,3 +337,67 @@ def _reads_only(P, added, before, src):
         if base is None or base is not src:
             ok = False
     return ok and bool(tail)
+
+
+# --------------------------------------------------------------------------- __all__ += ... (the visitor side of `__all__` assembled from several places)
+VSV = "_griffe.agents.visitor:Visitor."
+
+
+@contract("C05", "visit_augassign.all_is_extended_by_every_item", [VSV + "visit_augassign"], floor=4, replay="replay_packages")
+def c_visit_augassign(P):
+    """`__all__ += <items>` in a module appends every extracted item, in order, to the exports collected so far (strings as they are, references to another
+    module's `__all__` as names with the same text and scope) -- also items that are already there or that compare equal to one that is (list `+=` never
+    drops anything; two references `a.__all__` and `b.__all__` are different exports); any other augmented assignment leaves the exports alone."""
+    from specs import visitorfx as VF
+    v, cur, ev, info = VF.mk_visitor(P, cur_kinds=("Module", "Class"))
+    target_is_all = z3.Bool("target_is___all__")
+    tname = SStr(z3.If(target_is_all, z3.StringVal("__all__"), z3.String("other_target")))
+    P.assume(z3.Or(target_is_all, z3.String("other_target") != z3.StringVal("__all__")))
+    is_add = z3.Bool("operator_is_add")
+    op = SObj("ast.Add", {}, frozen=True) if P.branch(is_add) else SObj("ast.Sub", {}, frozen=True)
+    attr_target = z3.Bool("target_is_an_attribute")          # x.y += ...: no `id`
+    target = SObj("ast.Attribute", {}, frozen=True) if P.branch(attr_target) else SObj("ast.Name", {"id": tname}, frozen=True)
+    node = VF.ast_node(P, "ast.AugAssign", "augassign", target=target, op=op, value=VF.ast_node(P, "ast.List", "value"))
+    # exports so far: one string and one reference (the filter of a broken rewrite has something to compare with), then anything
+    scope = SObj("Module", {}, ident=z3.Int("names_scope_id"), frozen=True)
+    old_ref = SObj("ExprName", {"name": P.fresh_str("old_ref_name"), "parent": scope}, ident=z3.Int("old_ref_id"))
+    old_str = P.fresh_str("old_export")
+    exports = MList([old_str, old_ref])
+    cur.fields["exports"] = exports
+    # what the statement adds: an arbitrary sequence of strings and references
+    IS_REF = z3.Function("ITEM_IS_REFERENCE", IntS, BoolS)
+    ITEM_STR = z3.Function("ITEM_STRING", IntS, StrS)
+    ITEM_NAME = z3.Function("ITEM_REFERENCE_TEXT", IntS, StrS)
+
+    def mk_item(i):
+        zi = zint(i)
+        return SUnion([(IS_REF(zi), SObj("ExprName", {"name": SStr(ITEM_NAME(zi)), "parent": scope}, ident=z3.Function("ITEM_REF_ID", IntS, IntS)(zi))),
+                       (z3.Not(IS_REF(zi)), SStr(ITEM_STR(zi)))])
+    items = sym_seq(P, "items", mk_item)
+    for mod in ("_griffe.agents.visitor", "_griffe.agents.nodes.exports"):
+        P.opaque_hooks[mod + ":safe_get__all__"] = lambda P_, a, k: items
+    # equality of names is by text (ExprName.__eq__): run the real method
+    is_module = P.resolve_cls(cur) == "Module"
+    kind, res = outcome(P, lambda: call(P, VSV + "visit_augassign", v, node))
+    P.prove("never_raises", kind == "ok", exc=(P.resolve_cls(res) if kind == "raise" else ""))
+    if kind != "ok":
+        return
+    after = cur.fields["exports"]
+    if isinstance(after, MList):
+        after = after.seq
+    n_after = zint(P.seq_len(after))
+    applies = z3.And(z3.Not(attr_target), target_is_all, is_add, z3.BoolVal(is_module))
+    P.prove("every_item_is_appended", z3.Implies(applies, n_after == 2 + zint(items.len)))
+    P.prove("other_augmented_assignments_leave_the_exports_alone", z3.Implies(z3.Not(applies), n_after == 2))
+    P.prove("exports_so_far_are_kept_in_place", z3.And(zbool(P.eq(P.seq_at(after, 0), old_str)), zbool(P.identical(P.seq_at(after, 1), old_ref))))
+    k_ = P.fresh_int("some_item")
+    if P.branch(z3.And(applies, k_.z >= 0, k_.z < zint(items.len))):
+        got = P.seq_at(after, SInt(k_.z + 2))
+        if isinstance(got, SUnion):
+            got = P.choose(got)
+        if P.branch(IS_REF(k_.z)):
+            P.prove("a_reference_is_kept_as_a_name_with_the_same_text_and_scope",
+                    isinstance(got, SObj) and P.resolve_cls(got) == "ExprName" and zbool(P.eq(got.fields["name"], SStr(ITEM_NAME(k_.z)))) and got.fields.get("parent") is scope)
+        else:
+            P.prove("a_string_is_kept_as_it_is", zbool(P.eq(got, SStr(ITEM_STR(k_.z)))))
+    P.cover("visit_augassign")
